@@ -213,7 +213,7 @@ class Criteria(Harness):
     functions = ('mathtrig.SUMIF', 'mathtrig.SUMIFS', 'statistical.COUNTIF', 'statistical.AVERAGEIF', 'statistical.AVERAGEIFS',
                  'statistical.MAXIFS', 'utils.parse_criteria', 'utils.REGEX_CRITERIA', 'helper.number.to_number')
     bounds = 'lists of 1..3 items (quick) / 1..4 (thorough) of integers |x| <= 999, criteria ranges of equal length, criterion = ' \
-             'one of 6 operators or none + an integer |c| <= 999 rendered as text; one criterion (all six functions), two criteria (the *IFS)'
+             'one of 6 operators or none + an integer |c| <= 999 rendered as text; one criterion (all six functions), two and three criteria (the *IFS)'
     outside = ('decimal numbers in items or criteria', 'criteria ranges of unequal length')
 
     def cases(self, tier):
@@ -228,15 +228,23 @@ class Criteria(Harness):
                 for op in ('>', '=', '<='):
                     for op2 in ('<', '<>'):
                         out.append({'fn': fn, 'n': n, 'op': op, 'two': True, 'op2': op2})
+            # three criteria pairs
+            for n in (2,) if tier == 'quick' else (2, 3):
+                for op, op2, op3 in (('>', '<', '<>'), ('=', '<=', '>='), ('<>', '>', '=')):
+                    out.append({'fn': fn, 'n': n, 'op': op, 'two': True, 'op2': op2, 'op3': op3})
         return out
 
     def build(self, e, p):
         n = p['n']
-        mk = lambda nm: e.fresh_int(nm, -999, 999)
+        lim = 9 if p.get('op3') else 999      # three criteria: one-digit criterion numbers keep the rendering forks small
+        mk = lambda nm: e.fresh_int(nm, -lim, lim)
         inp = {'items': [mk('x%d' % i) for i in range(n)], 'cells': [mk('c%d' % i) for i in range(n)], 'k': mk('k')}
         if p['two']:
             inp['cells2'] = [mk('d%d' % i) for i in range(n)]
             inp['k2'] = mk('k2')
+        if p.get('op3'):
+            inp['cells3'] = [mk('e%d' % i) for i in range(n)]
+            inp['k3'] = mk('k3')
         return inp
 
     def run(self, env, inp, p):
@@ -250,6 +258,10 @@ class Criteria(Harness):
         if p['two']:
             vs['vcellsb'] = inp['cells2']
             vs['vcritb'] = crit_text(env, p['op2'], inp['k2'])
+            if p.get('op3'):
+                vs['vcellsc'] = inp['cells3']
+                vs['vcritc'] = crit_text(env, p['op3'], inp['k3'])
+                return self.parse_with(env, '%s(vitems,vcells,vcrit,vcellsb,vcritb,vcellsc,vcritc)' % fn, vs)
             return self.parse_with(env, '%s(vitems,vcells,vcrit,vcellsb,vcritb)' % fn, vs)
         return self.parse_with(env, '%s(vitems,vcells,vcrit)' % fn, vs)
 
@@ -261,6 +273,8 @@ class Criteria(Harness):
         sel = [PYCMP[p['op']](c, inp['k']) for c in inp['cells']]
         if p['two']:
             sel = [And(s, PYCMP[p['op2']](d, inp['k2'])) for s, d in zip(sel, inp['cells2'])]
+        if p.get('op3'):
+            sel = [And(s, PYCMP[p['op3']](d, inp['k3'])) for s, d in zip(sel, inp['cells3'])]
         zsel = [zbool(s) for s in sel]
         cnt = sum([z3.If(s, 1, 0) for s in zsel])
         tot = sum([z3.If(s, zint(x), 0) for s, x in zip(zsel, items)])
@@ -295,15 +309,15 @@ class Wildcards(Harness):
     prop = 'C11'
     doc = 'COUNTIF / SUMIFS with a text criterion containing * and ? select exactly the text cells matching the pattern'
     functions = ('utils.parse_criteria', 'statistical.COUNTIF', 'mathtrig.SUMIFS')
-    bounds = 'text cells of length 0..2 over lower-case letters a..c, pattern of length 1..2 over {a,b,*,?} containing a wildcard; 1..2 cells'
+    bounds = 'text cells of length 0..2 over lower-case letters a..c, pattern of length 1..3 over {a,b,*,?} containing a wildcard; 1..2 cells'
     outside = ('patterns containing [ or non-letter literal characters', 'case-insensitive matching')
 
     def cases(self, tier):
         out = []
         for fn in ('COUNTIF', 'SUMIFS'):
             for n in (1, 2):
-                for lp in (1, 2):
-                    for lc in ((0, 1, 2) if tier == 'thorough' else (1, 2)):
+                for lp in (1, 2, 3):
+                    for lc in ((0, 1, 2, 3) if tier == 'thorough' else (1, 2)):
                         out.append({'fn': fn, 'n': n, 'lp': lp, 'lc': lc})
         return out
 
